@@ -45,6 +45,23 @@ pub struct ReqSub {
     pub cmd: Cmd,
 }
 
+#[derive(Parser, Debug)]
+pub struct OptSub {
+    #[arg(long)]
+    pub verbose: bool,
+    #[command(subcommand)]
+    pub cmd: Option<Plain>,
+}
+
+#[derive(Subcommand, Debug)]
+pub enum Plain {
+    One,
+    Two {
+        #[arg(long)]
+        depth: Option<u8>,
+    },
+}
+
 #[derive(Args, Debug)]
 pub struct Flat {
     #[arg(long)]
